@@ -52,6 +52,11 @@ func execRel(r *RNG, c *Case) {
 	case "agg":
 		a = runVariants(c, seqs, names, c.Get("anntext"), c.Get("annfmt"), false, false)
 		b = runVariants(c, seqs, names, c.Get("anntext"), c.Get("annfmt"), true, false)
+	case "samvar-topa", "samvar-toma":
+		a = runSamVariants(c, false)
+		b = runFastaRoute(c, c.Get("relkind"))
+	case "legacy", "unwrap-toma":
+		a, b = execRelSam(c)
 	case "snpsagg":
 		a = runSnps(c, false)
 		b = runSnps(c, true)
